@@ -685,7 +685,7 @@ func checkLoops(c *Ctx, r *Rec, rule string, fd *ast.FuncDecl, exempt map[string
 			case v.OK:
 				r.ok(rule, construct, pos, v.Form+": "+v.Detail)
 			case v.Undec:
-				r.undecided(rule, construct, pos, v.Form+": "+v.Detail)
+				r.skip(rule, construct, pos, "loop in a form the progress classifier does not understand ("+v.Form+": "+v.Detail+"): termination not decided")
 			default:
 				r.fail(rule, construct, pos, v.Form+": "+v.Detail)
 			}
